@@ -699,7 +699,8 @@ def coeff_op_cases(draw):
     sl = []
     for ax in range(nsl):
         n = x.shape[ax]
-        form = draw(st.sampled_from(['all', 'range', 'range', 'step']))
+        # ':' often: a Fortran-ordered operand stays Fortran-contiguous only under slices that restrict nothing but the last axis
+        form = draw(st.sampled_from(['all', 'all', 'all', 'range', 'range', 'step']))
         if form == 'all':
             sl.append(slice(None))
         elif form == 'range':
